@@ -24,7 +24,9 @@ type c11pos struct {
 }
 
 func c11base() *Cfg {
-	return &Cfg{Meta: &Meta{Pkg: P("gen"), Imports: []KV{{"pk", "fx/pk"}}}, Services: []Service{{Name: "helper", Constructor: P("pk.New")}}}
+	// a todo service sorts before everything else: its exemption from the attribute checks is its own
+	return &Cfg{Meta: &Meta{Pkg: P("gen"), Imports: []KV{{"pk", "fx/pk"}}}, Services: []Service{{Name: "helper", Constructor: P("pk.New")},
+		{Name: "AaTodoFirst", Todo: P(true), Getter: P("not a getter")}}}
 }
 
 var c11reserved = map[string]bool{}
